@@ -173,13 +173,13 @@ theorem allChunks_zip (D : Deps) (codec : Nat) : ∀ (ms : List ChunkMeta) (pss 
   | [], _ :: _, h => by simp [AllChunks] at h
   | _ :: _, [], h => by simp [AllChunks] at h
 
-theorem allGroups_zip (D : Deps) (codec : Nat) : ∀ (gms : List RgMeta) (gs : List (List (List PageRec))),
-    AllGroups D codec gms gs → RowsZip gms gs →
-    (∀ gm ∈ gms, ∃ g ∈ gs, AllChunks D codec gm.chunks g ∧ gm.numRows = firstRows g) ∧
+theorem allGroups_zip (D : Deps) (codec : Nat) (cols : List Col) : ∀ (gms : List RgMeta) (gs : List (List (List PageRec))),
+    AllGroups D codec gms gs → RowsZip cols gms gs →
+    (∀ gm ∈ gms, ∃ g ∈ gs, AllChunks D codec gm.chunks g ∧ gm.numRows = firstRecs cols (g.map pagesData)) ∧
     (∀ g ∈ gs, ∃ gm ∈ gms, AllChunks D codec gm.chunks g)
   | [], [], _, _ => ⟨fun gm h => by simp at h, fun g h => by simp at h⟩
   | gm :: gms, g :: gs, h, hz => by
-    obtain ⟨i1, i2⟩ := allGroups_zip D codec gms gs h.2 hz.2
+    obtain ⟨i1, i2⟩ := allGroups_zip D codec cols gms gs h.2 hz.2
     refine ⟨?_, ?_⟩
     · intro x hx
       rcases List.mem_cons.mp hx with rfl | hx'
@@ -213,15 +213,46 @@ theorem firstRows_eq (D : Deps) (codec : Nat) (cols : List Col) (ms : List Chunk
         have := sumRows_eq_rows_of D codec c ps hof.1
         simp [firstRows, ← this, hall.1.1]
 
+/-- the rows of a column's pages are at most its level entries -/
+theorem recs_le_rows (c : Col) : ∀ (ps : List PageRec), (∀ r ∈ ps, PageGood c r.src) →
+    (pagesData ps).recs c.maxRep ≤ (pagesData ps).rows := by
+  intro ps h
+  unfold ColData.recs
+  by_cases h0 : c.maxRep = 0
+  · simp [h0]
+  · simp only [h0, if_false]
+    refine Nat.le_trans (List.length_filter_le _ _) ?_
+    induction ps with
+    | nil => simp [pagesData]
+    | cons r ps ih =>
+      have hl := (h r (by simp)).repsLen (by omega)
+      have := ih (fun x hx => h x (by simp [hx]))
+      simp only [pagesData, List.map_cons, List.flatten_cons, List.length_append, List.sum_cons] at this ⊢
+      omega
+
+/-- `num_rows` of a row group is at most the `num_values` of its first chunk (0 without columns) -/
+theorem firstRecs_le (o : FileReal.Oracle) (codec : Nat) (cols : List Col) (ms : List ChunkMeta) (p : List (List PageRec))
+    (hall : AllChunks (deps o) codec ms p) (hof : GroupOf (deps o) codec cols p) (hg : GroupP (goodPred o) cols p) :
+    firstRecs cols (p.map pagesData) ≤ (ms.map (·.numValues)).headD 0 := by
+  rw [← firstRows_eq (deps o) codec cols ms p hall hof]
+  cases p with
+  | nil => simp [firstRecs, firstRows]
+  | cons ps pss =>
+    cases cols with
+    | nil => simp [GroupOf] at hof
+    | cons c cs =>
+      simp only [firstRecs, firstRows, List.map_cons, List.zipWith_cons_cons, List.headD_cons]
+      exact recs_le_rows c ps hg.1
+
 /-! ### the size conditions of the whole-file stage -/
 
 theorem isStr_carquet : isStr (FileReal.strBytes "Carquet") = true := by decide +kernel
 
 /-- **`RunSmall` from conditions on the schema and on the written file itself** -/
-theorem runSmall_of_output (o : FileReal.Oracle) (pp : PagePred (deps o)) (codec : Nat)
+theorem runSmall_of_output (o : FileReal.Oracle) (codec : Nat)
     (hcodec : codec = 0 ∨ codec = 1 ∨ codec = 5 ∨ codec = 7) (cols : List Col) (ops : List Op)
     (file : List UInt8) (md : FooterData) (gs : List (List (List PageRec)))
-    (hf : RunFacts (deps o) pp cols codec "Carquet" ops file md gs)
+    (hf : RunFacts (deps o) (goodPred o) cols codec "Carquet" ops file md gs)
     (hs : SchemaSmall cols) (ho : OutputSmall file md) : RunSmall md gs := by
   have hflen : file.length = 4 + (dataBytes (deps o) gs).length + (FileReal.footer md).length + 4 + 4 := by
     have hfo : (deps o).footer md = FileReal.footer md := rfl
@@ -229,7 +260,7 @@ theorem runSmall_of_output (o : FileReal.Oracle) (pp : PagePred (deps o)) (codec
     simp only [List.length_append, magic, le32, List.length_cons, List.length_nil]
   have hgsize := groupsSize_dataBytes (deps o) codec md.rowGroups gs 4 hf.allGroups hf.groupsAt
   have hbounds := groupsAt_bounds md.rowGroups 4 hf.groupsAt
-  obtain ⟨z1, z2⟩ := allGroups_zip (deps o) codec md.rowGroups gs hf.allGroups hf.rowsZip
+  obtain ⟨z1, z2⟩ := allGroups_zip (deps o) codec cols md.rowGroups gs hf.allGroups hf.rowsZip
   have hfl := ho.fileLen
   -- every chunk's compressed size is below the file length
   have hcomp : ∀ gm ∈ md.rowGroups, ∀ m ∈ gm.chunks, m.fileOffset < 2147483648 ∧ m.totalCompressed < 2147483648 := by
@@ -251,7 +282,8 @@ theorem runSmall_of_output (o : FileReal.Oracle) (pp : PagePred (deps o)) (codec
         intro x hx
         obtain ⟨gm, hgm, rfl⟩ := List.mem_map.mp hx
         obtain ⟨g, hg, hall, hnr⟩ := z1 gm hgm
-        rw [hnr, firstRows_eq (deps o) codec cols gm.chunks g hall (hf.groupOf g hg)]
+        rw [hnr]
+        refine Nat.lt_of_le_of_lt (firstRecs_le o codec cols gm.chunks g hall (hf.groupOf g hg) (hf.groupP g hg)) ?_
         cases hc : gm.chunks with
         | nil => simp
         | cons m ms =>
@@ -279,11 +311,12 @@ theorem runSmall_of_output (o : FileReal.Oracle) (pp : PagePred (deps o)) (codec
         · rw [hpath]; exact hs.names c hc
       · rw [hlen]; have := hs.count; omega
       · omega
-      · rw [hnr, firstRows_eq (deps o) codec cols gm.chunks g hall (hf.groupOf g hg)]
+      · rw [hnr]
+        have hle := firstRecs_le o codec cols gm.chunks g hall (hf.groupOf g hg) (hf.groupP g hg)
         cases hc : gm.chunks with
-        | nil => simp
+        | nil => simp [hc] at hle; omega
         | cons m ms =>
-          simp only [List.map_cons, List.headD_cons]
+          simp only [hc, List.map_cons, List.headD_cons] at hle
           have := (ho.chunks gm hgm m (by rw [hc]; simp)).1
           omega
       · omega
